@@ -548,6 +548,65 @@ pub fn fplus(centres: Vec<usize>, min_pieces: usize, label: &str) -> Family {
     }
 }
 
+/// FPX: the plus fillings around trap c3 (or, `image` = true, around f6 with everything mirrored and colour-swapped) on a
+/// board that also holds a fixed background of 16 further pieces (kinds outside the filling alphabet plus three rabbits a
+/// side): Gold's stand on the eight squares next to the two far traps (so that every scan over trap neighbourhoods meets
+/// many pieces before the interesting ones), Silver's around the third trap and on its home ranks.  Returned with the
+/// mask of the region whose steps are followed (the plus and everything within two steps of its centre).
+pub fn fplus_padded(image: bool, min_pieces: usize) -> (Family, u64) {
+    let per = 7u64.pow(5);
+    let alphabet: [rm::Cell; 7] = [rm::EMPTY, rm::cell(true, 0), rm::cell(true, 1), rm::cell(true, 5), rm::cell(false, 0), rm::cell(false, 1), rm::cell(false, 5)];
+    let mut bg = [rm::EMPTY; 64];
+    // Gold: M, 2 H, 2 D, 3 R on the squares next to traps c6 and f6; Silver: m, 2 h, 2 d, 3 r around f3 and at home
+    for (name, gold, st) in [
+        ("c7", true, 2u8), ("f7", true, 3), ("b6", true, 3), ("d6", true, 2), ("e6", true, 0), ("g6", true, 4), ("c5", true, 0), ("f5", true, 0),
+        ("b8", false, 0), ("d8", false, 3), ("g8", false, 0), ("h7", false, 2), ("h4", false, 4), ("g3", false, 3), ("f2", false, 0), ("h1", false, 2),
+    ] {
+        bg[crate::e2::sq(name)] = rm::cell(gold, st);
+    }
+    let tr = |i: usize| if image { 63 - i } else { i };
+    let centre = 42usize; // c3
+    let mut mask = 0u64;
+    for i in 0..64usize {
+        let (df, dr) = ((i % 8) as i32 - (centre % 8) as i32, (i / 8) as i32 - (centre / 8) as i32);
+        if df.abs() + dr.abs() <= 2 {
+            mask |= 1u64 << tr(i);
+        }
+    }
+    let fam = Family {
+        name: format!("FPX (every filling of the plus around trap {} with {{empty,R,C,E,r,c,e}}, >= {} pieces, on a board with a fixed background of 16 further pieces around the other traps; only steps within two squares of the trap are followed, every offered action is checked; 7^5 x 2 sides)", if image { "f6 (mirrored, colour-swapped background)" } else { "c3" }, min_pieces),
+        n: per * 2,
+        how: 0,
+        setups: None,
+        decode: Box::new(move |idx| {
+            let side = idx % 2 == 0;
+            let mut fill = idx / 2;
+            let cells = [centre, centre - 8, centre + 1, centre + 8, centre - 1];
+            let mut b = bg;
+            let mut cnt = 0;
+            for &c in cells.iter() {
+                let v = alphabet[(fill % 7) as usize];
+                fill /= 7;
+                if v != rm::EMPTY {
+                    cnt += 1;
+                    b[c] = v;
+                }
+            }
+            if cnt < min_pieces || !legal(&b) {
+                return None;
+            }
+            if image {
+                // rotate by 180 degrees and swap the colours = mirror + (colour swap with rank flip)
+                let b2 = mirror_board(&swap_board(&b));
+                Some((b2, !side))
+            } else {
+                Some((b, side))
+            }
+        }),
+    };
+    (fam, mask)
+}
+
 pub fn interior_squares() -> Vec<usize> {
     (0..64).filter(|i| i % 8 > 0 && i % 8 < 7 && i / 8 > 0 && i / 8 < 7).collect()
 }
